@@ -317,7 +317,9 @@ class FunctionParser(BaseParser):
         self.return_type = self.parse_annotation(
             annotation=self.return_annotation
         )
+        self.generate_generator_types()
 
+    def generate_generator_types(self):
         # https://docs.python.org/3/library/typing.html#typing.Generator
         if self.return_type and isinstance(self.return_type, type) and issubclass(self.return_type, Rule):
             if self.is_generator:
@@ -510,6 +512,9 @@ class FunctionParser(BaseParser):
             self.position_type, r = resolve_forward_type(self.position_type)
         if self.return_type:
             self.return_type, r = resolve_forward_type(self.return_type)
+            if r and not (self.generator_yield_type or self.generator_send_type or self.generator_return_type):
+                # the whole return annotation was a reference (postponed evaluation of annotations)
+                self.generate_generator_types()
         # the yield / send / return types taken out of a generator's return annotation
         for attr in ("generator_yield_type", "generator_send_type", "generator_return_type"):
             t = getattr(self, attr, None)
